@@ -175,6 +175,39 @@ impl ValueWriter for IdCapture<'_> {
     }
 }
 
+/// A late-bound callback slot shared between a harness object created before the sink (stream,
+/// recorder) and the scenario that can only fill it in once the sink exists.
+pub struct Callback<A>(pub Arc<Mutex<Option<Box<dyn Fn(A) + Send + Sync>>>>);
+impl<A> Default for Callback<A> {
+    fn default() -> Self {
+        Callback(Arc::new(Mutex::new(None)))
+    }
+}
+impl<A> Clone for Callback<A> {
+    fn clone(&self) -> Self {
+        Callback(self.0.clone())
+    }
+}
+impl<A> Callback<A> {
+    pub fn set(&self, f: impl Fn(A) + Send + Sync + 'static) {
+        *self.0.lock().unwrap() = Some(Box::new(f));
+    }
+    pub fn clear(&self) {
+        *self.0.lock().unwrap() = None;
+    }
+    pub fn call(&self, a: A) {
+        // take the closure out while it runs: it may re-enter code that calls this slot again
+        let f = self.0.lock().unwrap().take();
+        if let Some(f) = f {
+            f(a);
+            let mut g = self.0.lock().unwrap();
+            if g.is_none() {
+                *g = Some(f);
+            }
+        }
+    }
+}
+
 // ------------------------------------------------------------------------------------------
 // gate (fuel) on the simulated scheduler
 // ------------------------------------------------------------------------------------------
@@ -260,6 +293,9 @@ pub struct RecStream {
     pub flush_fail_from: Option<u64>,
     /// every entry gets this result (a stream that rejects everything)
     pub fail_all: Option<Res>,
+    /// called inside every entry's `next` with the index of that call (a stream that itself uses
+    /// the sink it serves); filled in by the scenario once the sink exists
+    pub on_entry_next: Callback<u64>,
     /// at the start of the `next` call with this index the *writer thread* gets a scoped tracing
     /// subscriber (a subscriber installed after the queue was built)
     pub install_subscriber_at: Option<u64>,
@@ -294,6 +330,7 @@ impl RecStream {
                 yields: true,
                 flush_fail_from: None,
                 fail_all: None,
+                on_entry_next: Callback::default(),
                 install_subscriber_at: None,
                 next_calls: 0,
                 flush_calls: 0,
@@ -338,6 +375,7 @@ impl EntryIoStream for RecStream {
         }
         if !seen.report {
             // (the in-band report itself was decided before this call: entries only)
+            self.on_entry_next.call(self.next_calls);
             self.next_calls += 1;
         }
         self.ctl.hist.log(K::NextBegin { stream: no, id: seen.id, report: seen.report });
@@ -398,6 +436,9 @@ impl Drop for RecStream {
 pub struct CountingRecorderInner {
     pub counters: Mutex<BTreeMap<String, Arc<AtomicU64>>>,
     pub histograms: Mutex<BTreeMap<String, Vec<f64>>>,
+    /// called after every counter increment with the counter's name (a recorder that itself emits
+    /// metrics through the sink whose metrics it records)
+    pub on_increment: Callback<String>,
 }
 
 #[derive(Clone, Default)]
@@ -433,13 +474,14 @@ impl CountingRecorder {
     }
 }
 
-struct CounterCell(Arc<AtomicU64>);
+struct CounterCell(Arc<AtomicU64>, Callback<String>, String);
 impl metrics::CounterFn for CounterCell {
     fn increment(&self, value: u64) {
         // the recorder is a harness-owned seam: calling into it is a scheduling point
         detsim::yield_point();
         self.0.fetch_add(value, Ordering::SeqCst);
         detsim::yield_point();
+        self.1.call(self.2.clone());
     }
     fn absolute(&self, value: u64) {
         self.0.fetch_max(value, Ordering::SeqCst);
@@ -474,7 +516,7 @@ impl metrics::Recorder for CountingRecorder {
             .entry(key_string(key))
             .or_insert_with(|| Arc::new(AtomicU64::new(0)))
             .clone();
-        metrics::Counter::from_arc(Arc::new(CounterCell(cell)))
+        metrics::Counter::from_arc(Arc::new(CounterCell(cell, self.0.on_increment.clone(), key_string(key))))
     }
 
     fn register_gauge(&self, _key: &metrics::Key, _m: &metrics::Metadata<'_>) -> metrics::Gauge {
